@@ -1,3 +1,247 @@
-/-! # C05 — property theorems (to be written) -/
+import BddVerif.Lemmas.Limit
+import BddVerif.Lemmas.DryLimit
+import BddVerif.Lemmas.DryFlag
+import BddVerif.Lemmas.DryCount
+/-!
+# C05 — size-limited and dry-run operators agree with the unrestricted operator; `cmp_implies`
+
+Property theorems about the models of `apply_with_flip_and_limit` (`Lim.applyLimit`),
+`estimated_apply_complexity` (`Lim.dryRun`, and `Lim.dryFull` = the same traversal without a limit, i.e. "the
+task count") and `cmp_implies` (`Lim.cmpImplies`), measured against the frozen model `applyWithFlip` of the
+unrestricted operator. Helper lemmas: `Lemmas/Limit.lean`, `Lemmas/DryLimit.lean`, `Lemmas/DryFlag.lean`,
+`Lemmas/DryCount.lean`, `Lemmas/Flip.lean`. `Gen.imp_` is regenerated from `src/op_function.rs` on every run.
+-/
 namespace B.Props.C05
+open B B.Lim
+
+/-- **limit_spec.** `Some(r)` exactly when the unrestricted result `r` has at most `limit` nodes, and then `r`
+    is identical to it; otherwise `None`. Array level, for ALL operands (no well-formedness needed), all
+    tables, all flips and all limits — including `limit = 0` (always `None`: every result has a node), the
+    false result (one node, returned for every `limit ≥ 1`) and `limit = 1` with a two-node `true` result
+    (`None` by the end-of-run test). -/
+theorem limit_spec (lim : Nat) (L R : Arr) (op : Op2) (fl fr fo : Option Nat) :
+    applyLimit lim L R op fl fr fo =
+      if (applyWithFlip L R op fl fr fo).size ≤ lim then some (applyWithFlip L R op fl fr fo) else none :=
+  applyLimit_eq lim L R op fl fr fo
+
+/-- the same in the property's words, about the public entry points (`binary_op_with_limit` is the case of
+    three absent flips): the limited call panics exactly when the unrestricted one does, and otherwise
+    returns `Some` of the identical array iff that array has at most `limit` nodes -/
+theorem limit_spec_public (lim : Nat) (L R : Arr) (op : Op2) (fl fr fo : Option Nat) :
+    fusedBinaryFlipOpWithLimit lim L R op fl fr fo =
+      match fusedBinaryFlipOp L R op fl fr fo with
+      | .ok r => .ok (if r.size ≤ lim then some r else none)
+      | .err m => .err m
+      | .panic m => .panic m := by
+  unfold fusedBinaryFlipOpWithLimit fusedBinaryFlipOp
+  split
+  · rfl
+  · split
+    · rfl
+    · simp only [limit_spec]
+
+theorem limit_some_iff (lim : Nat) (L R : Arr) (op : Op2) (fl fr fo : Option Nat) (r : Arr) :
+    applyLimit lim L R op fl fr fo = some r ↔
+      (r = applyWithFlip L R op fl fr fo ∧ (applyWithFlip L R op fl fr fo).size ≤ lim) := by
+  rw [limit_spec]
+  split
+  · rename_i h
+    constructor
+    · intro e; cases e; exact ⟨rfl, h⟩
+    · intro ⟨e, _⟩; rw [e]
+  · rename_i h
+    constructor
+    · intro e; cases e
+    · intro ⟨_, h'⟩; exact absurd h' h
+
+theorem limit_none_iff (lim : Nat) (L R : Arr) (op : Op2) (fl fr fo : Option Nat) :
+    applyLimit lim L R op fl fr fo = none ↔ lim < (applyWithFlip L R op fl fr fo).size := by
+  rw [limit_spec]
+  split
+  · rename_i h; constructor
+    · intro e; cases e
+    · intro h'; omega
+  · rename_i h; constructor
+    · intro _; omega
+    · intro _; rfl
+
+/-- **dry_limit.** The limited dry run returns `None` exactly when the task count (of the unlimited
+    traversal) exceeds the limit, and otherwise the very pair of the unlimited traversal. For ALL operands,
+    tables, flips, limits. -/
+theorem dry_limit (lim : Nat) (L R : Arr) (op : Op2) (fl fr fo : Option Nat) :
+    dryRun lim L R op fl fr fo =
+      if (dryFull L R op fl fr fo).2 ≤ lim then some (dryFull L R op fl fr fo) else none :=
+  dryRun_eq lim L R op fl fr fo
+
+theorem dry_none_iff (lim : Nat) (L R : Arr) (op : Op2) (fl fr fo : Option Nat) :
+    dryRun lim L R op fl fr fo = none ↔ lim < (dryFull L R op fl fr fo).2 := by
+  rw [dry_limit]
+  split
+  · rename_i h; constructor
+    · intro e; cases e
+    · intro h'; omega
+  · rename_i h; constructor
+    · intro _; omega
+    · intro _; rfl
+
+/-- **dry_nonempty.** The reported non-emptiness equals `!result.is_false()` (`is_false` = "has one node")
+    of the unrestricted result. -/
+theorem dry_nonempty (L R : Arr) (n : Nat) (op : Op2) (c : Bool → Bool → Bool) (fl fr fo : Option Nat)
+    (hL : WFo L n) (hR : WFo R n) (hc : Consistent op c)
+    (hfl : ∀ x, fl = some x → x < n) (hfr : ∀ x, fr = some x → x < n) (hfo : ∀ x, fo = some x → x < n) :
+    (dryFull L R op fl fr fo).1 = !((applyWithFlip L R op fl fr fo).size == 1) := by
+  have hflag := dryFull_flag L R n op c fl fr fo hL hR hc hfl hfr
+  have hone := canon_size_one n (specFn L R n c fl fr fo) (specFn_dep L R n c fl fr fo hL hR)
+  rw [applyWithFlip_eq_canon L R n op c fl fr fo hL hR (numVars_of_wf hL) hc hfl hfr hfo]
+  have e : (fun v => c (evW L n (inv fl (inv fo v)) (root L)) (evW R n (inv fr (inv fo v)) (root R))) =
+      specFn L R n c fl fr fo := rfl
+  rw [e]
+  cases hf : (dryFull L R op fl fr fo).1 with
+  | true =>
+    obtain ⟨v, hv⟩ := hflag.1 hf
+    have : ¬ (canon n (specFn L R n c fl fr fo)).size = 1 := by
+      intro h1; have := hone.1 h1 v; rw [hv] at this; cases this
+    simp [this]
+  | false =>
+    have hall : ∀ v, specFn L R n c fl fr fo v = false := by
+      intro v
+      cases hv : specFn L R n c fl fr fo v with
+      | false => rfl
+      | true => have := hflag.2 ⟨v, hv⟩; rw [hf] at this; cases this
+    simp [hone.2 hall]
+
+/-- **dry_count_ge.** The task count is at least the number of decision nodes (`size − 2`; `0` for the
+    constants) of the unrestricted result. -/
+theorem dry_count_ge (L R : Arr) (n : Nat) (op : Op2) (c : Bool → Bool → Bool) (fl fr fo : Option Nat)
+    (hL : WFo L n) (hR : WFo R n) (hc : Consistent op c)
+    (hfl : ∀ x, fl = some x → x < n) (hfr : ∀ x, fr = some x → x < n) (hfo : ∀ x, fo = some x → x < n) :
+    (applyWithFlip L R op fl fr fo).size - 2 ≤ (dryFull L R op fl fr fo).2 :=
+  dryFull_count L R n op c fl fr fo hL hR hc hfl hfr hfo
+
+/-- the three dry-run clauses for the limited call, in one statement -/
+theorem dry_run_spec (lim : Nat) (L R : Arr) (n : Nat) (op : Op2) (c : Bool → Bool → Bool) (fl fr fo : Option Nat)
+    (hL : WFo L n) (hR : WFo R n) (hc : Consistent op c)
+    (hfl : ∀ x, fl = some x → x < n) (hfr : ∀ x, fr = some x → x < n) (hfo : ∀ x, fo = some x → x < n)
+    (flag : Bool) (count : Nat) (h : dryRun lim L R op fl fr fo = some (flag, count)) :
+    flag = !((applyWithFlip L R op fl fr fo).size == 1) ∧
+    (applyWithFlip L R op fl fr fo).size - 2 ≤ count ∧ count ≤ lim := by
+  rw [dry_limit] at h
+  split at h
+  · rename_i hle
+    cases hd : dryFull L R op fl fr fo with
+    | mk f k =>
+      rw [hd] at h hle
+      cases h
+      have h1 := dry_nonempty L R n op c fl fr fo hL hR hc hfl hfr hfo
+      have h2 := dry_count_ge L R n op c fl fr fo hL hR hc hfl hfr hfo
+      rw [hd] at h1 h2
+      exact ⟨h1, h2, hle⟩
+  · cases h
+
+/-! ### `cmp_implies` -/
+
+theorem imp_consistent : Consistent Gen.imp_ (fun a b => !a || b) := by
+  refine ⟨?_, ?_, ?_, ?_⟩
+  · intro x y; cases x <;> cases y <;> rfl
+  · intro x r h y; cases x <;> cases y <;> simp_all [Gen.imp_]
+  · intro y r h x; cases x <;> cases y <;> simp_all [Gen.imp_]
+  · intro r h; simp [Gen.imp_] at h
+
+/-- pointwise implication between the functions of two operands over `n` variables -/
+def Implies (a b : Arr) (n : Nat) : Prop := ∀ v, evW a n v (root a) = true → evW b n v (root b) = true
+
+/-- one limited implication check of `cmp_implies` decides pointwise implication -/
+theorem implies_check (a b : Arr) (n m : Nat) (ha : WFo a n) (hb : WFo b n) :
+    isTrueB ((applyLimit 2 a b Gen.imp_ none none none).getD (mkFalse m)) = true ↔ Implies a b n := by
+  have hsz : isTrueB ((applyLimit 2 a b Gen.imp_ none none none).getD (mkFalse m)) =
+      ((applyWithFlip a b Gen.imp_ none none none).size == 2) := by
+    rw [limit_spec]
+    split
+    · rfl
+    · rename_i h
+      have : ¬ (applyWithFlip a b Gen.imp_ none none none).size = 2 := by omega
+      simp [isTrueB, mkFalse, this]
+  rw [hsz, applyWithFlip_eq_canon a b n Gen.imp_ (fun a b => !a || b) none none none ha hb (numVars_of_wf ha)
+    imp_consistent (by simp) (by simp) (by simp)]
+  have hdep : Dep n (fun v => !(evW a n (inv none (inv none v)) (root a)) || evW b n (inv none (inv none v)) (root b)) :=
+    specFn_dep a b n (fun a b => !a || b) none none none ha hb
+  rw [beq_iff_eq, canon_size_two n _ hdep]
+  unfold Implies
+  constructor
+  · intro h v hv
+    have := h v
+    simp only [inv] at this
+    rw [hv] at this
+    simpa using this
+  · intro h v
+    simp only [inv]
+    cases hv : evW a n v (root a) with
+    | false => rfl
+    | true => rw [h v hv]; rfl
+
+/-- **cmp_implies_spec.** For two valid Bdds over the same `n` variables (canonical ones in particular) the
+    result is `Equal / Less / Greater / None` exactly by pointwise implication in the two directions. -/
+theorem cmp_implies_spec (a b : Arr) (n : Nat) (ha : WFo a n) (hb : WFo b n) :
+    (cmpImplies a b = some .eq ↔ (Implies a b n ∧ Implies b a n)) ∧
+    (cmpImplies a b = some .lt ↔ (Implies a b n ∧ ¬ Implies b a n)) ∧
+    (cmpImplies a b = some .gt ↔ (¬ Implies a b n ∧ Implies b a n)) ∧
+    (cmpImplies a b = none ↔ (¬ Implies a b n ∧ ¬ Implies b a n)) := by
+  have hab := implies_check a b n (numVars a) ha hb
+  have hba := implies_check b a n (numVars a) hb ha
+  have hn : numVars a = numVars b := by rw [numVars_of_wf ha, numVars_of_wf hb]
+  unfold cmpImplies
+  simp only [hn, if_true]
+  rw [hn] at hab hba
+  cases h1 : isTrueB ((applyLimit 2 a b Gen.imp_ none none none).getD (mkFalse (numVars b))) <;>
+    cases h2 : isTrueB ((applyLimit 2 b a Gen.imp_ none none none).getD (mkFalse (numVars b))) <;>
+    rw [h1] at hab <;> rw [h2] at hba <;> simp_all
+
+/-- Bdds with different variable counts are incomparable (and nothing is computed) -/
+theorem cmp_implies_vars (a b : Arr) (h : numVars a ≠ numVars b) : cmpImplies a b = none := by
+  unfold cmpImplies; simp [h]
+
+/-! ### non-vacuity -/
+
+/-- a concrete non-trivial limited call: `x0 ∧ x2 ∧ x1` has 5 nodes; limit 5 returns it, limit 4 refuses -/
+example : applyLimit 5 exX0X2 exX1 andLazy none none none =
+    some #[⟨3, 0, 0⟩, ⟨3, 1, 1⟩, ⟨2, 0, 1⟩, ⟨1, 0, 2⟩, ⟨0, 0, 3⟩] := by
+  have e : applyWithFlip exX0X2 exX1 andLazy none none none =
+      #[⟨3, 0, 0⟩, ⟨3, 1, 1⟩, ⟨2, 0, 1⟩, ⟨1, 0, 2⟩, ⟨0, 0, 3⟩] :=
+    (applyWithFlip_eq_canon exX0X2 exX1 3 andLazy (fun x y => x && y) none none none
+      exX0X2_wf exX1_wf rfl andLazy_consistent (by simp) (by simp) (by simp)).trans (by decide)
+  rw [limit_spec, e]; rfl
+
+example : applyLimit 4 exX0X2 exX1 andLazy none none none = none := by
+  have e : applyWithFlip exX0X2 exX1 andLazy none none none =
+      #[⟨3, 0, 0⟩, ⟨3, 1, 1⟩, ⟨2, 0, 1⟩, ⟨1, 0, 2⟩, ⟨0, 0, 3⟩] :=
+    (applyWithFlip_eq_canon exX0X2 exX1 3 andLazy (fun x y => x && y) none none none
+      exX0X2_wf exX1_wf rfl andLazy_consistent (by simp) (by simp) (by simp)).trans (by decide)
+  rw [limit_spec, e]; rfl
+
+/-- the hypotheses of the dry-run theorems are satisfiable (level-skipping operand, all three flips) -/
+example : (dryFull exX0X2 exX1 andLazy (some 2) (some 1) (some 0)).1 =
+    !((applyWithFlip exX0X2 exX1 andLazy (some 2) (some 1) (some 0)).size == 1) :=
+  dry_nonempty exX0X2 exX1 3 andLazy (fun x y => x && y) (some 2) (some 1) (some 0)
+    exX0X2_wf exX1_wf andLazy_consistent (by simp) (by simp) (by simp)
+
+theorem exX0_fn (v : Nat → Bool) : evW exX0 3 v (root exX0) = v 0 := by
+  cases h0 : v 0 <;> simp [evW, root, exX0, evalF, h0]
+
+theorem exX0X2_fn (v : Nat → Bool) : evW exX0X2 3 v (root exX0X2) = (v 0 && v 2) := by
+  cases h0 : v 0 <;> cases h2 : v 2 <;> simp [evW, root, exX0X2, evalF, h0, h2]
+
+/-- `x0 ∧ x2` implies `x0`, not conversely: `cmp_implies` says `Less` -/
+example : cmpImplies exX0X2 exX0 = some .lt := by
+  apply (cmp_implies_spec exX0X2 exX0 3 exX0X2_wf exX0_wf).2.1.2
+  constructor
+  · intro v hv
+    rw [exX0X2_fn] at hv; rw [exX0_fn]
+    cases h0 : v 0 with
+    | true => rfl
+    | false => rw [h0] at hv; simp at hv
+  · intro h
+    have := h (fun j => j == 0) (by rw [exX0_fn]; rfl)
+    rw [exX0X2_fn] at this
+    simp at this
+
 end B.Props.C05
